@@ -309,6 +309,24 @@ def r7_deepcopy(ctx):
     raise AnalysisError("C11.R7", "anchor vanished: self.algo_parameters = ... in BaseAlgorithm.__init__")
 
 
+def r10_no_bare_squeeze_in_logging(ctx):
+    """'Turning logging on never aborts the run': the logging code plots / writes arrays whose shapes depend on the data (one visit, one
+    feature, one source ...).  `x.squeeze()` without a dimension drops EVERY singleton axis, so an individual with a single visit or a
+    model with a single feature changes the rank handed to matplotlib / csv - which then raises and aborts the fit."""
+    ctx.rule("C11.R10", "the fit-logging code never squeezes without naming the axis", 1)
+    n = 0
+    for f in ctx.ix.iter_funcs():
+        if f.mod != "leaspy.algo.fit.fit_output_manager":
+            continue
+        for c in ast.walk(f.node):
+            if isinstance(c, ast.Call) and ((isinstance(c.func, ast.Attribute) and c.func.attr == "squeeze") or U(c.func) in ("torch.squeeze", "np.squeeze")):
+                n += 1
+                named = bool(c.args[1:] if U(c.func) in ("torch.squeeze", "np.squeeze") else c.args) or any(k.arg in ("dim", "axis") for k in c.keywords)
+                ctx.check(named, "C11.R10", f, c, "squeeze of a named axis", f"`{U(c)[-60:]}` drops every singleton axis: with a single visit (or feature) the array loses the axis the plot / file code "
+                          "indexes, the logging call raises and the fit is aborted")
+    ctx.ok("C11.R10", ("leaspy.algo.fit.fit_output_manager", "FitOutputManager"), None, f"{n} squeeze call(s) in the logging code, all with an explicit axis", construct="squeeze calls")
+
+
 def rules(ctx):
     cg = callgraph(ctx)
     sw = state_writes(ctx)
@@ -319,6 +337,7 @@ def rules(ctx):
     r5_definite_assignment(ctx)
     r6_history(ctx, cg)
     r7_deepcopy(ctx)
+    r10_no_bare_squeeze_in_logging(ctx)
     # 'whatever was fitted earlier in the process': what a run leaves behind must not seed the next one. Same structural rules as
     # C13.R1 (a model never keeps the individual latent values / data of a run: the next run would start from them instead of from
     # seeded draws) and C13.R5 (nothing is written through process-wide containers), decided on the same code.
